@@ -1759,3 +1759,83 @@ def flag_match(ck, F, rule="FLAG-MATCH"):
                   "%s branches on %s to choose between values computed from %s: the coordinate `%s` must be resolved with its own flag"
                   % (pname, flag, sorted(coords), want), f, l, sample={"printer": pname, "flag": flag, "coordinates": sorted(coords)})
     ck.ob(rule, "sites", n >= 6, "only %d flag-selected coordinates found in the printers (anchor lost?)" % n)
+
+
+# ------------------------------------------------------------------------------------------------ CUT (C13, C14)
+def _cut_norm(b, o, depth=0):
+    """(frozenset of parameter names, constant offset) when the operand is a sum of parameters (of the function, or
+    captured by a closure of it) plus a constant; None otherwise."""
+    if o.get("k") is not None:
+        return None
+    sr = sources(b, o)
+    if any(x[0] in ("field", "call") for x in sr):
+        return None
+    ups = {x[1] for x in sr if x[0] == "upvar"}
+    if ups:
+        if len(ups) == 1 and not any(x[0] in ("param", "arith") for x in sr) and b.facts is not None and depth < 3:
+            par = b.facts.heads.get(b.path, {}).get("parent")
+            if par and b.facts.has(par):
+                pb = b.facts.body(par)
+                ls = pb.local_by_name(next(iter(ups)))
+                if len(ls) == 1:
+                    return _cut_norm(pb, {"c": {"l": ls[0]}}, depth + 1)
+        return None
+    params = frozenset(x[1] for x in sr if x[0] == "param")
+    if not params or any(x[0] == "arith" and x[1] not in ("Add", "Sub") for x in sr):
+        return None
+    if b.facts is not None and b.facts.heads.get(b.path, {}).get("bkind") == "closure":
+        own = {b.local_name(i) for i in range(2, b.nargs + 1)}
+        if params & own:
+            return None       # the closure's own argument is the element being classified, not a boundary
+    off = _band_offset(b, o, 0)
+    if off is None:
+        return None
+    return (params, off)
+
+
+def cut_agree(ck, F, rule="CUT"):
+    """One edit, one set of boundaries: insert_rows / delete_rows / insert_columns / delete_columns decide for cells, links,
+    conditional-format ranges and descriptors which side of the edit an element is on by comparing its coordinate with `pos`
+    or `pos + count`.  Every such comparison in the function and its closures is normalised to a cut point (`x < B` and
+    `x >= B` cut at B, `x <= B` and `x > B` cut at B + 1); all comparisons against the same combination of parameters must
+    cut at the same point.  A link closure that drops `r <= row + row_count` where the descriptors shift `r >= row + row_count`
+    treats the first surviving row both ways."""
+    n = 0
+    # (delete_columns is left out: its descriptor rebuild compares two intervals and legitimately cuts at several points;
+    #  GRID-GUARD descriptor_order decides it with the zone engine instead)
+    for fn in ("insert_rows", "delete_rows", "insert_columns"):
+        b0 = ck.need(F.one, "model::Model::" + fn)
+        cuts = {}
+        for b in unit_bodies(F, b0):
+            for bi, blk in enumerate(b.blocks):
+                t = blk["t"]
+                if t["k"] != "switch" or t["ty"] != "bool":
+                    continue
+                tr = b.trace(t["o"])
+                if tr["kind"] != "rv" or tr["rv"]["k"] != "bin" or tr["rv"]["op"] not in ("Lt", "Le", "Gt", "Ge"):
+                    continue
+                rv = tr["rv"]
+                na, nb = _cut_norm(b, rv["a"]), _cut_norm(b, rv["b"])
+                if (na is None) == (nb is None):
+                    continue
+                if (na is None and rv["a"].get("k") is not None) or (nb is None and rv["b"].get("k") is not None):
+                    continue      # a test of the parameters against a constant (grid limit), not a classification of an element
+                op = rv["op"]
+                if na is not None:
+                    op = {"Lt": "Gt", "Le": "Ge", "Gt": "Lt", "Ge": "Le"}[op]
+                    bound = na
+                else:
+                    bound = nb
+                cut = bound[1] + (1 if op in ("Le", "Gt") else 0)
+                cuts.setdefault(bound[0], []).append((cut, b.loc(bi), "closure" if b is not b0 else "body"))
+        for base, items in sorted(cuts.items(), key=lambda kv: sorted(kv[0])):
+            from collections import Counter
+            ref = Counter(c for c, _, _ in items).most_common(1)[0][0]
+            for k, (cut, loc, where) in enumerate(items, 1):
+                n += 1
+                ck.ob(rule, "%s|vs %s|#%d" % (fn, "+".join(sorted(base)), k), cut == ref,
+                      "%s (%s): a comparison against %s cuts at %s%+d where the other comparisons of the same edit cut at %s%+d: the element exactly "
+                      "at the boundary is on one side for some of the things that move (cells, links, descriptors) and on the other for the rest"
+                      % (fn, where, "+".join(sorted(base)), "+".join(sorted(base)), cut, "+".join(sorted(base)), ref), loc[0], loc[1],
+                      sample={"fn": fn, "bound": sorted(base), "cut": cut})
+    ck.ob(rule, "comparisons", n >= 10, "only %d boundary comparisons found in the insert/delete functions (anchor lost?)" % n)
